@@ -97,7 +97,7 @@ def handleC16 : Handler := fun op j =>
           let p : Present :=
             { mode := optStr pj "mode", writer := optStr pj "writer", split := optNat pj "split",
               suffixLen := (optNat pj "suffix").getD 2, format := optStr pj "format" }
-          Json.str (String.ofList (writerUri p (optStr pj "fields") (optStr pj "exclude")))
+          Json.str (String.ofList (writerUri p (writerFields o.multiTs (optStr pj "fields")) (optStr pj "exclude")))
         | .error _ => Json.null
       pure (Json.mkObj [("uri", uri), ("written", Json.arr (out.written.map recJson).toArray),
                         ("listed", Json.arr (out.listed.map descJson).toArray),
